@@ -152,6 +152,18 @@ ghost var gMidFold bool
 ghost var gMidFoldKey string
 ghost var gTrimmed string
 
+# the Date header is written in UTC (the format has no zone field and is read back as UTC)
+ghost var gUTC time.Time
+ghost var gDateStr string
+func fbb.(*Message).SetDate(m, t) ()
+  props C09
+  requires msg: m != nil && m.Header != nil
+  call time.(Time).UTC requires of-the-argument: $0 == t
+  call time.(Time).UTC set gUTC := $r0
+  call time.(Time).Format requires utc-in-date-layout: $0 == gUTC && $1 == DateLayout
+  call time.(Time).Format set gDateStr := $r0
+  call fbb.(Header).Set requires date-header: $1 == "Date" && same($2, gDateStr)
+
 # C09 representation: the Body header is the length of the stored body, and the File headers
 # list "<size> <encoded name>" for the attachments in order - established by the setters
 ghost var gBodyBytes []byte
